@@ -8,3 +8,4 @@ pub mod err;
 pub mod probe;
 pub mod order;
 pub mod role;
+pub mod short;
